@@ -8,13 +8,13 @@ def plan(tier, seed):
             J("ruin-repair move n=4", "move_job", kind="pdp", n=4),
             J("2-opt bookkeeping n=4", "bookkeeping_job", kind="kopt", n=4, steps=2), J("ruin-repair bookkeeping n=4", "bookkeeping_job", kind="pdp", n=4, steps=2)]
     # moves drawn by the environments' own samplers (k-opt with k = 3: k sequential draws under the sampler's masks)
-    jobs += [J("2-opt sampler n=4", "sampler_job", kind="kopt", n=4, k_max=2), J("3-opt sampler n=5", "sampler_job", kind="kopt", n=5, k_max=3), J("ruin-repair sampler n=4", "sampler_job", kind="pdp", n=4)]
+    jobs += [J("2-opt sampler n=4", "sampler_job", kind="kopt", n=4, k_max=2), J("3-opt sampler n=5", "sampler_job", kind="kopt", n=5, k_max=3), J("5-opt sampler n=6", "sampler_job", kind="kopt", n=6, k_max=5), J("ruin-repair sampler n=4", "sampler_job", kind="pdp", n=4)]
     if tier == "thorough":
         jobs += [J("3-opt sampler n=6", "sampler_job", kind="kopt", n=6, k_max=3), J("4-opt sampler n=6", "sampler_job", kind="kopt", n=6, k_max=4)]  # (ruin-repair sampler at n=6: the single-cycle query does not finish within the per-query timeout; not claimed)
         jobs += [J("2-opt move n=6", "move_job", kind="kopt", n=6, k_max=2), J("ruin-repair move n=6", "move_job", kind="pdp", n=6),
                  J("2-opt bookkeeping n=5", "bookkeeping_job", kind="kopt", n=5, steps=2), J("2-opt bookkeeping n=4 x3", "bookkeeping_job", kind="kopt", n=4, steps=3)]
     return {"jobs": jobs, "level": "model_checking",
-            "bounds": "2-opt and ruin-repair moves on ARBITRARY valid tours with n<=6 nodes (every move admitted by the env's own mask); every move the environments' own samplers can draw (2-opt, 3-opt, 4-opt, ruin-repair; n<=6); bookkeeping over 2-3 successive steps from the real reset; B=1",
+            "bounds": "2-opt and ruin-repair moves on ARBITRARY valid tours with n<=6 nodes (every move admitted by the env's own mask); every move the environments' own samplers can draw (2-opt ... 5-opt, ruin-repair; n<=6); bookkeeping over 2-3 successive steps from the real reset; B=1",
             "outside": "k-exchanges chosen by the NeuOpt policy through its own internal masks (the env's sampler for k = 3, 4 IS covered); moves chosen by DACT/N2S networks beyond what the env's move mask admits; B>1"}
 
 
